@@ -104,7 +104,7 @@ def prepare(chart, W, tag):
     proper = sum(1 << n.idx for n in chart.nodes if n.kind in ('scxml', 'state', 'parallel', 'final'))
     fh = os.path.join(W, tag + '_facts.h')
     with open(os.path.join(W, tag + '_pre.h'), 'w') as f:
-        f.write('#define R_MAXACT %d\n' % (4 * len(chart.nodes) + len(chart.trans) + 4))
+        f.write('#define R_MAXACT %d\n#define R_MAXS %d\n#define R_MAXT %d\n' % (4 * len(chart.nodes) + len(chart.trans) + 4, len(chart.nodes), max(1, len(chart.trans))))
     with open(fh, 'w') as f:
         f.write('/* %s: %s */\n' % (chart.name, chart.describe()))
         f.write(chart.facts_c('CH'))
